@@ -18,7 +18,7 @@ RULE = (
     "with >= 2 calls on the same (position,state) separated by other calls, and a jit and a vmap call; "
     "distinct by (program, history) hash"
 )
-REQUIRED = ["realistic_log_prob_vs_oracle", "result_equals_spec_evaluation", "result_equals_direct_assignment", "history_independent",
+REQUIRED = ["interface_construction_leaves_user_model", "put_get_law_with_colliding_names", "realistic_log_prob_vs_oracle", "result_equals_spec_evaluation", "result_equals_direct_assignment", "history_independent",
             "input_state_unchanged", "user_model_unchanged", "extract_returns_position",
             "log_prob_equals_model", "jit_equals_eager", "vmap_equals_eager", "simple_interface_laws"]
 ANCHORS = ["goose/interface.py:LieselInterface.update_state", "goose/interface.py:LieselInterface.extract_position",
@@ -248,6 +248,25 @@ def case_liesel(case, res):
         now = state_bytes(A.model.state)
         if now != user_snapshot:
             res.violation("user-model-mutated", f"{mode} update_state changed the user's model", w())
+        # occasionally build ANOTHER interface while the user's model has pending (outdated) nodes:
+        # constructing an interface must not change the user's model (values or flags)
+        if rng.random() < 0.08:
+            sid, how, obj = settable[int(rng.integers(len(settable)))]
+            was_auto = A.model.auto_update
+            A.model.auto_update = False
+            obj.value = jnp.asarray(np.asarray(A.initial_value(sid) + np.float32(rng.integers(-2, 3)), np.float32))
+            pend = state_bytes(A.model.state)
+            n_out = sum(1 for n_ in A.model.nodes.values() if n_.outdated)
+            iface_b = gs.LieselInterface(A.model)
+            res.mon("interface_construction_leaves_user_model")
+            if state_bytes(A.model.state) != pend or sum(1 for n_ in A.model.nodes.values() if n_.outdated) != n_out:
+                res.violation("user-model-mutated", "constructing a LieselInterface changed the user's model (values or outdated "
+                              f"flags; {n_out} nodes were outdated before)", w())
+            A.model.update()
+            A.model.auto_update = was_auto
+            hist.append(["second-interface-with-pending-updates", obj.name])
+            user_snapshot = state_bytes(A.model.state)
+            _ = iface_b
         # occasionally mutate the user's model: the interface must be detached from it
         if rng.random() < 0.15:
             sid, how, obj = settable[int(rng.integers(len(settable)))]
@@ -294,6 +313,43 @@ def _state_classes():
 
         _CLS = (DState, NState)
     return _CLS
+
+
+def case_collision(case, res):
+    """A key that is both a node name and the name of another variable (e.g. variables `tau` and `tau_value`):
+    whichever object the interface resolves it to, put followed by get must return what was put."""
+    import jax
+    import jax.numpy as jnp
+    import liesel.goose as gs
+    import liesel.model as lsl
+
+    rng = rng_for(case["seed"], "c03-coll", case["idx"])
+    a = lsl.Var(jnp.asarray(1.0, jnp.float32), name="tau")
+    b = lsl.Var(jnp.asarray(7.0, jnp.float32), name="tau_value")       # collides with tau's value node name? no:
+    # tau's value node is named "tau_value"; variable b is *named* "tau_value" (its node is "tau_value_value")
+    c = lsl.Calc(lambda x, y: x + 2 * y, a, b, _name="c")
+    model = lsl.GraphBuilder().add(c).build_model()
+    iface = gs.LieselInterface(model)
+    S = model.state
+    for step in range(case["n_calls"]):
+        key = str(rng.choice(["tau_value", "tau", "tau_value_value"]))
+        v = jnp.asarray(np.float32(rng.integers(-5, 6)) + np.float32(0.5))
+        f = jax.jit(iface.update_state) if step % 3 == 2 else iface.update_state
+        out = f({key: v}, S)
+        got = iface.extract_position([key], out)[key]
+        res.mon("put_get_law_with_colliding_names")
+        if not arr_equal_bits(np.asarray(got), np.asarray(v)):
+            res.violation("extract-position", f"key {key!r} (both a node name and a variable name in this model): put {float(v)}, "
+                          f"extract_position returned {float(got)}", {"key": key})
+            break
+        # the derived node is consistent with whatever was set
+        tv = float(out["tau_value"].value)
+        bv = float(out["tau_value_value"].value)
+        if abs(float(out["c"].value) - (tv + 2 * bv)) > 1e-5:
+            res.violation("wrong-state", "derived node inconsistent after update with a colliding key", {"key": key})
+        S = out
+    res.nontriv(("collision", case["idx"]))
+    res.sample = {"kind": "name-collision", "keys": ["tau", "tau_value", "tau_value_value"]}
 
 
 def case_simple(case, res):
@@ -464,7 +520,9 @@ def run_case(case):
     res = CaseResult(case)
     res.evals = 1
     try:
-        if case["kind"] == "realistic":
+        if case["kind"] == "collision":
+            case_collision(case, res)
+        elif case["kind"] == "realistic":
             case_realistic(case, res)
         elif case["kind"] == "liesel":
             case_liesel(case, res)
@@ -484,6 +542,8 @@ def gen_cases(tier, seed):
              for i in range(200 if q else 2000)]
     for i in range(40 if q else 600):
         cases.append({"kind": "realistic", "idx": 50000 + i, "seed": seed, "n_calls": 12 if q else 25, "cost": 4})
+    for i in range(6 if q else 40):
+        cases.append({"kind": "collision", "idx": 70000 + i, "seed": seed, "n_calls": 15, "cost": 1})
     for i in range(30 if q else 300):
         cases.append({"kind": "simple", "iface": ["dict", "dataclass", "namedtuple"][i % 3], "idx": i,
                       "seed": seed, "n_calls": 25, "cost": 1})
